@@ -608,6 +608,73 @@ pub unsafe extern "C" fn clock_gettime(clk: libc::clockid_t, ts: *mut libc::time
 }
 
 // ---------------------------------------------------------------------------------------------
+// environment seam: which variables does the code under test ask for, and what if the answer differs?
+// ---------------------------------------------------------------------------------------------
+
+extern "C" {
+    static environ: *const *const libc::c_char;
+}
+
+thread_local! {
+    /// Some(names to flip) while the current thread is a simulated party
+    static PARTY_ENV: std::cell::RefCell<Option<Vec<String>>> = const { std::cell::RefCell::new(None) };
+}
+/// every variable name a party asked for (discovery); drained by the harness
+static ENV_QUERIED: Mutex<std::collections::BTreeSet<String>> = Mutex::new(std::collections::BTreeSet::new());
+static FLIPPED_VALUE: [u8; 2] = *b"1\0";
+
+pub fn enter_party_env(flip: Vec<String>) {
+    let _ = PARTY_ENV.try_with(|e| *e.borrow_mut() = Some(flip));
+}
+
+pub fn leave_party_env() {
+    let _ = PARTY_ENV.try_with(|e| *e.borrow_mut() = None);
+}
+
+pub fn take_env_queries() -> Vec<String> {
+    std::mem::take(&mut *ENV_QUERIED.lock().unwrap_or_else(|e| e.into_inner())).into_iter().collect()
+}
+
+unsafe fn real_getenv(name: &[u8]) -> *mut libc::c_char {
+    if environ.is_null() {
+        return std::ptr::null_mut();
+    }
+    let mut p = environ;
+    while !(*p).is_null() {
+        let entry = CStr::from_ptr(*p).to_bytes();
+        if entry.len() > name.len() && &entry[..name.len()] == name && entry[name.len()] == b'=' {
+            return (*p).add(name.len() + 1) as *mut libc::c_char;
+        }
+        p = p.add(1);
+    }
+    std::ptr::null_mut()
+}
+
+/// `getenv` as std calls it. Outside a party: the real environment. Inside a party: the name is
+/// recorded, and a variable on the party's flip list reads as set ("1") if it is really unset and
+/// as unset if it is really set — "the same program in a process with a different environment".
+#[no_mangle]
+pub unsafe extern "C" fn getenv(name: *const libc::c_char) -> *mut libc::c_char {
+    if name.is_null() {
+        return std::ptr::null_mut();
+    }
+    let n = CStr::from_ptr(name).to_bytes();
+    let real = real_getenv(n);
+    let policy = PARTY_ENV.try_with(|e| e.try_borrow().ok().and_then(|b| b.clone())).ok().flatten();
+    if let Some(flip) = policy {
+        let ns = String::from_utf8_lossy(n).into_owned();
+        let flipped = flip.iter().any(|f| *f == ns);
+        if let Ok(mut q) = ENV_QUERIED.lock() {
+            q.insert(ns);
+        }
+        if flipped {
+            return if real.is_null() { FLIPPED_VALUE.as_ptr() as *mut libc::c_char } else { std::ptr::null_mut() };
+        }
+    }
+    real
+}
+
+// ---------------------------------------------------------------------------------------------
 // liveness self-test: fail closed (harness error) if std stops calling the interposed symbols
 // ---------------------------------------------------------------------------------------------
 
@@ -728,6 +795,20 @@ pub fn liveness_selftest() -> Result<(), String> {
     let real1 = std::time::SystemTime::now().duration_since(std::time::UNIX_EPOCH).map(|d| d.as_secs()).unwrap_or(0);
     if real0 < 1_600_000_000 || real1 < real0 {
         return Err("clock seam: real clock not restored outside a party".into());
+    }
+    // 3d. environment seam
+    let path_real = std::env::var_os("PATH");
+    enter_party_env(vec!["GARBLE_SIM_SELFTEST_UNSET_VARIABLE".into(), "PATH".into()]);
+    let flipped_on = std::env::var("GARBLE_SIM_SELFTEST_UNSET_VARIABLE").ok();
+    let flipped_off = std::env::var_os("PATH");
+    let untouched = std::env::var_os("HOME");
+    leave_party_env();
+    let q = take_env_queries();
+    if flipped_on.as_deref() != Some("1") || (path_real.is_some() && flipped_off.is_some()) {
+        return Err("environment seam dead: std::env::var did not go through the interposed getenv".into());
+    }
+    if untouched != std::env::var_os("HOME") || !q.iter().any(|n| n == "PATH") {
+        return Err("environment seam: pass-through or discovery broken".into());
     }
     // 4. non-simulated paths still reach the real kernel
     match std::fs::read("/proc/self/comm") {
